@@ -139,6 +139,9 @@ func runAgg(e *simcore.Env, tp *simcore.Tape) {
 		repo := simmeta.New()
 		s.Install(repo)
 		flags := []string{"--measure-flush-timeout=" + []string{"1s", "5s"}[tp.Choose(2)], fmt.Sprintf("--measure-max-merge-parts=%d", tp.Range(2, 6))}
+		qpFlags, qpTag := simnode.QueryPath(tp.Choose, "measure")
+		flags = append(flags, qpFlags...)
+		_ = qpTag
 		n, err := simnode.Boot(repo, e.Dir, simnode.Engines{Measure: true}, flags)
 		if err != nil {
 			e.Fail("boot", "boot-failed", "boot: %v", err)
@@ -308,7 +311,7 @@ func runAgg(e *simcore.Env, tp *simcore.Tape) {
 				e.Probe("reach.sum_near_int64_limits_skipped")
 				continue // sums that may overflow are outside the exactness claim
 			}
-			cls := "measure:" + fnNames[q.fn] + ":" + map[bool]string{false: "int", true: "float"}[q.field.Type == databasev1.FieldType_FIELD_TYPE_FLOAT]
+			cls := "measure:" + qpTag + ":" + fnNames[q.fn] + ":" + map[bool]string{false: "int", true: "float"}[q.field.Type == databasev1.FieldType_FIELD_TYPE_FLOAT]
 			if len(q.groupTags) == 0 {
 				cls += ":no-group"
 			}
